@@ -378,9 +378,9 @@ def virtual_reach(outer):
         for a, b in model.edges:
             add(ends(byid[a])[1], ends(byid[b])[0])
     expand(outer['model'], outer['nested'])
-    plain = {k for k in adj if not isinstance(k, tuple)}
     out = {}
-    for start in plain:
+    cyclic = False
+    for start in adj:
         seen, stack = set(), list(adj[start])
         while stack:
             cur = stack.pop()
@@ -388,8 +388,13 @@ def virtual_reach(outer):
                 continue
             seen.add(cur)
             stack.extend(adj[cur])
-        out[start] = {x for x in seen if not isinstance(x, tuple)}
-    return out
+        if start in seen:
+            # also through virtual nodes only: a shared (possibly empty)
+            # sub-graph that must come after itself
+            cyclic = True
+        if not isinstance(start, tuple):
+            out[start] = {x for x in seen if not isinstance(x, tuple)}
+    return out, cyclic
 
 
 def random_dag_model(rng, pool, maxn):
@@ -430,7 +435,8 @@ def run_history(seed, idx, rec):
     for step in range(nsteps):
         opn = rng.choice(['add_node', 'add_dep', 'add_dep', 'add_dep',
                           'remove_node', 'remove_dep', 'copy', 'merge',
-                          'plus', 'invert', 'remove_missing'])
+                          'plus', 'invert', 'remove_missing', 'closure',
+                          'reduce'])
         ops.append(opn)
         where = f'step {step} {opn} (ops={ops[-6:]})'
         try:
@@ -484,6 +490,25 @@ def run_history(seed, idx, rec):
                     graph = graph + other
                     model = model.copy()
                     model.merge(other_m)
+            elif opn in ('closure', 'reduce'):
+                # in place, on the very object that has been queried so far
+                if model.cyclic():
+                    continue
+                reach = model.reach()
+                if opn == 'closure':
+                    res = graph.transitive_closure()
+                    model.edges = {(a, b) for a, bs in reach.items()
+                                   for b in bs}
+                else:
+                    res = graph.transitive_reduction()
+                    model.edges = {
+                        (a, b) for a, b in model.edges
+                        if not any(b in reach[c] for (x, c) in model.edges
+                                   if x == a and c != b)}
+                if res is not graph:
+                    rec.violation('in-place-algorithm-returned-other-object',
+                                  where, case)
+                rec.count('in_place_closure_reduction')
             elif opn == 'invert':
                 frozen.append((graph, model.copy(), f'pre-invert@{step}'))
                 graph = graph.invert()
@@ -534,7 +559,16 @@ def run_flatten(seed, idx, rec):
         if depth < 2:
             for _ in range(rng.choice([0, 1, 1, 2])):
                 size = rng.choice(['empty', 'one', 'many'])
-                sub_g, sub_spec = make_sub(depth + 1, size)
+                if created and rng.random() < 0.4:
+                    # the very same sub-graph object used as a node in a
+                    # second place (another level or another sub-graph)
+                    sub_g, sub_spec = rng.choice(created)
+                    if any(sub_g is mem for mem in members):
+                        continue
+                    shared.append(sub_g)
+                else:
+                    sub_g, sub_spec = make_sub(depth + 1, size)
+                    created.append((sub_g, sub_spec))
                 members.append(sub_g)
                 nested[id(sub_g)] = (sub_spec['model'], sub_spec['nested'])
         rng.shuffle(members)
@@ -558,9 +592,12 @@ def run_flatten(seed, idx, rec):
             return to_graph(model), {'model': model, 'nested': {}}
         return graph, spec
 
+    created, shared = [], []
     graph, spec = make(0)
     if not spec['nested']:
         return
+    if shared:
+        rec.count('flatten_cases_with_shared_subgraph_object')
     sizes = sorted(len(sub.nodes) for sub, _ in spec['nested'].values())
 
     def any_empty(nested):
@@ -568,8 +605,9 @@ def run_flatten(seed, idx, rec):
                    for sub, sub_n in nested.values())
     where = (f'flatten: {len(spec["model"].nodes)} outer nodes, nested sizes '
              f'{sizes}')
-    expect = virtual_reach(spec)
-    if any(k in v for k, v in expect.items()):
+    expect, cyclic = virtual_reach(spec)
+    if cyclic:
+        rec.count('flatten_cases_skipped_cyclic')
         return     # cyclic through shared members: outside the quantifier
     try:
         flat = graph.copy().flatten()
